@@ -14,7 +14,7 @@ CLAUSE = {1: "failed-op-had-effect", 2: "exception-class-changed", 3: "deciding-
           7: "registrations-differ-from-twin", 8: "unmodelled-values-differ-from-twin"}
 CORR = {1: "outcome", 2: "state", 3: "handler-log", 4: "fired", 5: "twin-state", 6: "registrations"}
 EXNS = ["TraitError", "ValueError", "AttributeError", "RuntimeError"]
-OPAQUE = ["SetW", "SetPW"]      # operations outside the Gallina model (law only)
+OPAQUE = ["SetW", "SetPW", "SetPV", "SetDPV", "DelPV"]      # operations outside the Gallina model (law only)
 
 
 def st_term(s):
@@ -120,8 +120,10 @@ def nontrivial(case, obs):
 
 def ncalls(op):
     k = op[0]
-    if k in ("SetX", "LAppend", "LInsert", "SAdd", "ReadF", "ReadM", "ReadP", "SetP", "ReadC", "SetXQ"):
+    if k in ("SetX", "LAppend", "LInsert", "SAdd", "ReadF", "ReadM", "ReadP", "SetP", "ReadC", "SetXQ", "SetPV", "SetDPV"):
         return 1
+    if k == "DelPV":
+        return 0
     if k == "SUpdate2":
         return len(op[1]) + len(op[2])
     if k == "SetAdE":
@@ -165,8 +167,9 @@ def gen_op(rnd):
                     "DAssign", "DSetItem", "DUpdate", "DUpdate", "DSetDefault", "SAssign", "SAdd", "SUpdate", "SUpdate",
                     "ReadF", "ReadM", "ReadP", "SetP", "ReadC", "ReadC", "SetAd", "SetAd", "SIxor", "SIxor", "SSymDiff",
                     "SetY", "SetY", "ReadY", "SetAd2", "SetAd2", "SetXQ", "SetXQ", "ObsRemove", "ObsAdd", "AddZ", "AddZ",
-                    "SetZ", "SetZ", "SUpdate2", "SUpdate2", "SetAdE", "SetAdE", "SetW", "SetW", "SetPW"])
-    if k in ("SetX", "LAppend", "SAdd", "SetY", "SetXQ"):
+                    "SetZ", "SetZ", "SUpdate2", "SUpdate2", "SetAdE", "SetAdE", "SetW", "SetW", "SetPW",
+                    "SetPV", "SetPV", "SetDPV", "SetDPV", "DelPV"])
+    if k in ("SetX", "LAppend", "SAdd", "SetY", "SetXQ", "SetPV", "SetDPV"):
         return [k, item()]
     if k == "SetZ":
         return [k, rnd.randint(0, 3), rnd.randint(0, 9)]
@@ -243,14 +246,17 @@ TEMPLATES = [["SetX", 5], ["SetX", 1], ["SetX", 101], ["SetT", 3, 4], ["SetT", 3
              ["SIxor", [1, 2, 3]], ["SIxor", [1, 5, 100]], ["SSymDiff", [1, 4, 6]], ["SetY", 5], ["SetY", 43], ["SetY", 100],
              ["ReadY"], ["SetAd2", 0, 3], ["SetAd2", 1, 3], ["SetAd2", 2, 3], ["SetAd2", None, 3],
              ["SetXQ", 5], ["SetXQ", 100], ["ObsRemove"], ["ObsAdd"], ["SUpdate2", [4, 5], [6, 7]],
-             ["SUpdate2", [4], [100, 5]], ["SetAdE", 1, 3], ["SetAdE", 0, 3], ["SetW", 5], ["SetPW", 1, 6]]
+             ["SUpdate2", [4], [100, 5]], ["SetAdE", 1, 3], ["SetAdE", 0, 3], ["SetW", 5], ["SetPW", 1, 6],
+             ["SetPV", 5], ["SetPV", 101], ["SetDPV", 6], ["SetDPV", 102], ["DelPV"]]
 FOLLOW = [["SetX", 6], ["LExtend", [1, 2]], ["DUpdate", [[2, 2]]], ["SUpdate", [5]], ["ReadF"], ["ReadM"], ["ReadC"],
           ["SetP", 8], ["SetAd", 2, 4], ["SIxor", [1, 8]], ["SetY", 7], ["SetAd2", 1, 5], ["AddZ"], ["SetZ", 0, 4],
-          ["SetX", 3], ["SetW", 7], ["SetPW", 0, 2], ["SetW", 4]]
+          ["SetX", 3], ["SetW", 7], ["SetPW", 0, 2], ["SetW", 4], ["SetDPV", 4], ["SetPV", 6], ["SetDPV", 8], ["DelPV"],
+          ["SetDPV", 2]]
 
 
 HANDLERS_OF = {"SetX": [0, 1, 2, 7, 3], "LAppend": [3, 4, 0], "LExtend": [3, 4], "LIadd": [3, 4], "LInsert": [3, 4],
-               "LSetSlice": [3, 4], "LAssign": [3, 4], "SetY": [5, 0], "SetXQ": [0, 2], "SetW": [8, 0], "SetPW": [8]}
+               "LSetSlice": [3, 4], "LAssign": [3, 4], "SetY": [5, 0], "SetXQ": [0, 2], "SetW": [8, 0], "SetPW": [8],
+               "SetPV": [9, 0], "SetDPV": [9, 0]}
 
 
 def systematic():
